@@ -65,3 +65,42 @@ func init() {
 			"\t\tcase reflect.Struct:\n\t\t\tfor _, field := range stmt.Schema.PrimaryFields {\n\t\t\t\tif value, isZero := field.ValueOf(stmt.Context, stmt.ReflectValue); !isZero {", "\t\tcase reflect.Struct:\n\t\t\tfor _, field := range stmt.Schema.PrimaryFields[:1] {\n\t\t\t\tif value, isZero := field.ValueOf(stmt.Context, stmt.ReflectValue); !isZero {"}}},
 	)
 }
+
+func init() {
+	addMutants(
+		Mutant{Name: "c17-replace-without-inherited-side-request", Property: "C17", Rule: "C17.replace-position", Edits: []Edit{{"callbacks.go",
+			"\tif c.before == \"\" && c.after == \"\" {\n\t\tfor i := len(c.processor.callbacks) - 1; i >= 0; i-- {\n\t\t\tif old := c.processor.callbacks[i]; old.name == name {\n\t\t\t\tc.before, c.after = old.before, old.after\n\t\t\t\tbreak\n\t\t\t}\n\t\t}\n\t}\n", ""}},
+			Note: "reverts the fix of finding F15"},
+		Mutant{Name: "c17-replace-inherits-before-only", Property: "C17", Rule: "C17.replace-position", Edits: []Edit{{"callbacks.go",
+			"\t\t\t\tc.before, c.after = old.before, old.after\n", "\t\t\t\tc.before = old.before\n"}}},
+		Mutant{Name: "n105-replace-inheritance-with-range-loop", Property: "*", Rule: "NEUTRAL", Edits: []Edit{{"callbacks.go",
+			"\t\tfor i := len(c.processor.callbacks) - 1; i >= 0; i-- {\n\t\t\tif old := c.processor.callbacks[i]; old.name == name {\n\t\t\t\tc.before, c.after = old.before, old.after\n\t\t\t\tbreak\n\t\t\t}\n\t\t}", "\t\tfor _, old := range c.processor.callbacks {\n\t\t\tif old.name == name {\n\t\t\t\tc.before = old.before\n\t\t\t\tc.after = old.after\n\t\t\t}\n\t\t}"}}},
+	)
+}
+
+func init() {
+	addMutants(
+		Mutant{Name: "c17-replace-overwrites-first-entry-in-place", Property: "C17", Rule: "C17.register", Edits: []Edit{{"callbacks.go",
+			"\t\t}\n\t}\n\tc.processor.callbacks = append(c.processor.callbacks, c)\n\treturn c.processor.compile()", "\t\t}\n\t}\n\tfor idx, cb := range c.processor.callbacks {\n\t\tif cb.name == name {\n\t\t\tc.processor.callbacks[idx] = c\n\t\t\treturn c.processor.compile()\n\t\t}\n\t}\n\tc.processor.callbacks = append(c.processor.callbacks, c)\n\treturn c.processor.compile()"}},
+			Note: "seed S125 rebased onto the fix of F15: Register n; Remove n; Replace n g no longer runs g"},
+	)
+}
+
+func init() {
+	addMutants(
+		// C16.rule-copy
+		Mutant{Name: "c16-expanded-rule-rebuilt-without-target-where", Property: "C16", Rule: "C16.rule-copy", Edits: []Edit{{"callbacks/create.go",
+			"\t\t\t\tstmt.AddClause(onConflict)\n", "\t\t\t\tstmt.AddClause(clause.OnConflict{Columns: onConflict.Columns, Where: onConflict.Where, OnConstraint: onConflict.OnConstraint, DoNothing: onConflict.DoNothing, DoUpdates: onConflict.DoUpdates})\n"}}},
+		Mutant{Name: "n106-expanded-rule-rebuilt-completely", Property: "*", Rule: "NEUTRAL", Edits: []Edit{{"callbacks/create.go",
+			"\t\t\t\tstmt.AddClause(onConflict)\n", "\t\t\t\tstmt.AddClause(clause.OnConflict{Columns: onConflict.Columns, Where: onConflict.Where, TargetWhere: onConflict.TargetWhere, OnConstraint: onConflict.OnConstraint, DoNothing: onConflict.DoNothing, DoUpdates: onConflict.DoUpdates, UpdateAll: onConflict.UpdateAll})\n"}}},
+		// C20.fk-flag
+		Mutant{Name: "c20-fk-option-skips-new-columns-of-relations", Property: "C20", Rule: "C20.fk-flag", Edits: []Edit{{"migrator/migrator.go",
+			"\t\tif !m.DB.IgnoreRelationshipsWhenMigrating {\n", "\t\tif !m.DB.IgnoreRelationshipsWhenMigrating && !m.DB.DisableForeignKeyConstraintWhenMigrating {\n"}}},
+		Mutant{Name: "n107-fk-option-in-a-local-before-the-constraint-loop", Property: "*", Rule: "NEUTRAL", Edits: []Edit{{"migrator/migrator.go",
+			"\t\t\t\tif !m.DB.DisableForeignKeyConstraintWhenMigrating && !m.DB.IgnoreRelationshipsWhenMigrating {\n\t\t\t\t\tfor _, rel := range stmt.Schema.Relationships.Relations {\n\t\t\t\t\t\tif rel.Field.IgnoreMigration {\n\t\t\t\t\t\t\tcontinue\n\t\t\t\t\t\t}\n\t\t\t\t\t\tif constraint := rel.ParseConstraint(); constraint != nil &&",
+			"\t\t\t\tif !m.DB.IgnoreRelationshipsWhenMigrating && !m.DB.DisableForeignKeyConstraintWhenMigrating {\n\t\t\t\t\tfor _, rel := range stmt.Schema.Relationships.Relations {\n\t\t\t\t\t\tif rel.Field.IgnoreMigration {\n\t\t\t\t\t\t\tcontinue\n\t\t\t\t\t\t}\n\t\t\t\t\t\tif constraint := rel.ParseConstraint(); constraint != nil &&"}}},
+		// C15.clone-flag
+		Mutant{Name: "c15-clone-arms-not-found-only-for-limited-queries", Property: "C15", Rule: "C15.clone-flag", Edits: []Edit{{"statement.go",
+			"\t\tRaiseErrorOnNotFound: stmt.RaiseErrorOnNotFound,\n", "\t\tRaiseErrorOnNotFound: stmt.RaiseErrorOnNotFound && len(stmt.Clauses) > 0,\n"}}},
+	)
+}
